@@ -5,7 +5,7 @@
    crashes (ACrash: the process dies and the hub reopens the same history file), under every schedule. A schedule
    places every publish anywhere relative to the registration (index + cut-off), the history scan (one entry per
    step) and the go-live flush (one queued update per step) of every subscriber. *)
-From Mercure Require Import Base Hub HubProofs7.
+From Mercure Require Import Base Hub HubProofs7 BoltHist BoltPersist BoltPersistProofs.
 
 (* In every reachable state, for every subscriber: with target := the ideal sequence
      (matching stored updates after the requested id, up to the cut-off read at registration)
@@ -108,3 +108,43 @@ Example C07_nonvacuous :
   map (fun s => (hs_sent s, hs_recvd s, hs_cut s, hs_disc s)) (h_subs (w_st w)) =
   [([], [], 0, false); ([8; 9], [8], 3, false); ([6; 7; 8; 9], [], 4, false)].
 Proof. vm_compute. split; reflexivity. Qed.
+
+(* ---- failed write transactions (Model/BoltPersist.v) ---- *)
+(* The hub transition system above has no failing write; this smaller model of persist() has: a transaction commits or
+   fails as a whole, any number of times, in any order. The cut-off a subscriber reads when it registers (lastSeq)
+   separates exactly the keys present at that moment from those stored later, whatever fails before or after:
+   replaying the keys <= cut-off and receiving the rest live neither loses nor doubles an update. *)
+Theorem C07_cutoff_separates_history_from_live_with_failed_writes :
+  forall (A : Type) size (t0 : tstate A) l1 l2, Inv A t0 ->
+    let t1 := run A size t0 l1 in
+    let t2 := run A size t1 l2 in
+    forall e, In e (d_entries A (t_db A t2)) ->
+      (fst e <= t_last_seq A t1 -> In e (d_entries A (t_db A t1))) /\
+      (In e (d_entries A (t_db A t1)) -> fst e <= t_last_seq A t1).
+Proof. exact cutoff_separates. Qed.
+Print Assumptions C07_cutoff_separates_history_from_live_with_failed_writes.
+
+(* ... and the hub's last event id is the id of the last update whose transaction committed (C09, C18) *)
+Theorem C07_last_event_id_is_last_committed : forall (A : Type) size l (t : tstate A),
+  t_last_id A (run A size t l) = match rev (committed A l) with x :: _ => Some x | [] => t_last_id A t end.
+Proof. exact last_id_is_last_committed. Qed.
+Print Assumptions C07_last_event_id_is_last_committed.
+
+(* The code before 3127a7e (fields assigned inside the transaction, before the Put) did not have the property:
+   commit 1, a failed write of 99, a subscriber reads the cut-off, commit 2 - update 2 is stored at or below the cut-off. *)
+Theorem C07_cutoff_before_3127a7e_refuted :
+  let t0 := {| t_db := db_empty N; t_last_seq := 0; t_last_id := None |} in
+  let t1 := run_old N 0 t0 [Commit N false 1; Fail N 99] in
+  let t2 := run_old N 0 t1 [Commit N false 2] in
+  t_last_id N t1 = Some 99 /\
+  exists e, In e (d_entries N (t_db N t2)) /\ ~ In e (d_entries N (t_db N t1)) /\ fst e <= t_last_seq N t1.
+Proof. exact old_code_refuted. Qed.
+Print Assumptions C07_cutoff_before_3127a7e_refuted.
+
+(* non-vacuity: from the empty database, commit 1, failed 99, commit 2 (cleanup ran), failed 98: the invariant holds, the
+   last id is 2, the sequence 2 *)
+Example C07_failed_writes_nonvacuous :
+  let t0 := {| t_db := db_empty N; t_last_seq := 0; t_last_id := None |} in
+  let t := run N 5 t0 [Commit N true 1; Fail N 99; Commit N true 2; Fail N 98] in
+  Inv N t0 /\ t_last_id N t = Some 2 /\ t_last_seq N t = 2 /\ d_entries N (t_db N t) = [(1, 1); (2, 2)].
+Proof. split; [split; [reflexivity | constructor]|]. vm_compute. repeat split; reflexivity. Qed.
